@@ -1,4 +1,84 @@
-"""C05 — not built yet."""
+"""C05 — symbol resolution binds every reference to the definition the IDL names (DESIGN.md §5.5, docs/C05.md)."""
+import json, os
+from vlib import core
+
+THEOREMS = ["Props.C05." + t for t in [
+    "tables_match_spec", "typedef_fixpoint_complete", "resolve_category", "resolve_const_binding",
+    "used_iff_referenced", "deref_total", "order_independent",
+]]
+
+RULE = ("seeded multi-file IDL programs (include DAGs with diamonds, equal base names in different directories, dotted "
+        "prefixes, names that are also prefixes, typedef chains crossing files, constants naming constants / enum values / "
+        "qualified ones / typedef'd enums, services with base services) plus single-fault erroneous programs, each under "
+        "the reversal and random permutations of its definitions; a program is non-trivial when it has >= 2 files and a "
+        "cross-file typedef or base service; distinct by sha256 of the VL line")
+
+
 def run(ctx):
-    print("C05: no check built yet")
-    return 2
+    exe = ctx.go_build("c05")
+    ctx.trusted += [
+        "translator harness/cmd/c05 extract (parser.Category numbering; go/ast over semantic.go: categoryMap, the case lists of "
+        "ResolveType's switch, the bounds of the category range tests of ResolveType and Deref)",
+        "correspondence harness harness/cmd/c05 (generator, IDL renderer, VL encoder, canonical dump of the resolved AST, "
+        "error classification by message pattern) vs lean driver tv_c05",
+        "the real parser (parser.ParseBatchString) turns the rendered IDL text into the AST the program description denotes",
+    ]
+    ctx.assumptions += [
+        "include graphs are acyclic (parser.CircleDetect runs before resolution); the model's include recursion reports "
+        "includeCycle instead of mirroring resolution against a half-initialised AST",
+        "Go map Name2Category is modelled as an association list read through lookup only",
+        "unbounded Go recursion (getEnum, Deref) is modelled with fuel; exhaustion = fatal crash; the driver's fuel "
+        "(2*typedefs+files+2) exceeds every acyclic chain",
+        "resolution errors are compared by class derived from the error text (patterns in harness/cmd/c05/worker.go)",
+    ]
+    if exe:
+        if ctx.replay:
+            return replay(ctx, exe)
+        rc, gen = core.sh([exe, "extract", "-repo", core.REPO])
+        if rc != 0:
+            ctx.obligation("translator:c05-extract", False, gen[-2000:])
+        else:
+            ctx.obligation("translator:c05-extract", True)
+            ctx.write_generated("C05", gen)
+    built = ctx.lake_build(["ThriftVerif.Props.C05"], "lake-build:Props.C05")
+    drv = ctx.lake_build(["tv_c05"], "lake-build:tv_c05")
+    if built:
+        ctx.audit("C05", THEOREMS)
+        if ctx.tier == "thorough":
+            ctx.leanchecker(["ThriftVerif.Props.C05"])
+    if exe:
+        rc, out = core.sh([exe, "run", "-repo", core.REPO, "-dir", ctx.work, "-seed", str(ctx.seed), "-tier", ctx.tier], timeout=3000)
+        if rc != 0:
+            raise core.MachineryError("c05 run failed: " + out[-3000:])
+        st = json.load(open(os.path.join(ctx.work, "stats.json")))
+        ctx.cov.update(evaluations=st["evaluations"], distinct_nontrivial=st["distinct_nontrivial"], samples=st["samples"],
+                       distribution=st["distribution"], exhaustive=False)
+        for f in (st.get("oracle_failures") or []):
+            ctx.add_violation(f["key"], f["what"], f["input"], f["expected"], f["observed"])
+        crashes = st["distribution"].get("outcome:err:crash", 0)
+        if crashes:
+            ctx.notes.append("%d generated programs of the shape 'typedef cycle reached through a dotted constant identifier' killed "
+                             "the Go runtime (stack overflow in getEnum), as the model predicts (Err.crash); this is the C04 "
+                             "candidate of DESIGN.md §7, outside C05's statement (the program is not accepted)" % crashes)
+        if drv:
+            model = ctx.run_model("tv_c05", os.path.join(ctx.work, "ops.txt"))
+            ctx.diff_lines("c05", os.path.join(ctx.work, "ops.txt"), os.path.join(ctx.work, "impl.txt"), model)
+    return ctx.finish(rule=RULE)
+
+
+def replay(ctx, exe):
+    rc, out = core.sh([exe, "replay", "-repo", core.REPO, "-file", ctx.replay], timeout=600)
+    if rc != 0:
+        raise core.MachineryError("c05 replay failed: " + out[-2000:])
+    doc = json.loads(out.strip().split("\n")[-1])
+    for f in doc.get("fails") or []:
+        ctx.add_violation(f["key"], f["what"], f["input"], f["expected"], f["observed"])
+    ops = os.path.join(ctx.work, "ops.txt")
+    impl = os.path.join(ctx.work, "impl.txt")
+    open(ops, "w").write(doc.get("ops", ""))
+    open(impl, "w").write(doc.get("impl", ""))
+    ctx.cov["evaluations"] = len([l for l in doc.get("ops", "").split("\n") if l])
+    if ctx.lake_build(["tv_c05"], "lake-build:tv_c05") and ctx.cov["evaluations"]:
+        model = ctx.run_model("tv_c05", ops)
+        ctx.diff_lines("c05-replay", ops, impl, model)
+    return ctx.finish(rule="replay of one program (and, for order failures, its second order)")
